@@ -129,8 +129,10 @@ def _outcome(env, out, info):
 # ------------------------------------------------------------------ axial regions
 def _axial_spec(k, zs, L):
     names = ['lower', 'upper', 'middle'][:k]
-    return {'asms': {'a': dict(axial=[(names[i], float(zs[i][0]), float(zs[i][1]), 0.25) for i in range(k)])},
-            'assign': [('a', 1, 1, 'FLOWRATE=0.5')], 'core_len': float(L)}
+    # the assembly type under test is the second of two types (a validator that only looks at the first would pass a
+    # one-type fixture)
+    return {'asms': {'a0': {}, 'a': dict(axial=[(names[i], float(zs[i][0]), float(zs[i][1]), 0.25) for i in range(k)])},
+            'assign': [('a0', 1, 1, 'FLOWRATE=0.5'), ('a', 2, 1, 'FLOWRATE=0.5')], 'core_len': float(L)}
 
 
 def body_axial(env):
@@ -143,7 +145,8 @@ def body_axial(env):
         with env.patch(MODS):
             o = _reader(('axial', k), _axial_spec(k, valid, 0.4))
             ar = o.data['Assembly']['a']['AxialRegion']
-            ar.pop('rods', None)             # added by the reader's own run of the check
+            for nm_ in o.data['Assembly']:   # 'rods' entries were added by the reader's own run of the check
+                o.data['Assembly'][nm_]['AxialRegion'].pop('rods', None)
             for i, nm in enumerate(sorted(n for n in ar)):
                 pass
             names = ['lower', 'upper', 'middle'][:k]
@@ -175,8 +178,10 @@ def body_axial(env):
 
 # ------------------------------------------------------------------ pins
 def _pin_spec(n, P, D, clad, Dw, f0, f1):
-    return {'asms': {'a': dict(n=n, P=float(P), D=float(D), Dw=float(Dw), clad=float(clad), ftf=(float(f0), float(f1)))},
-            'assign': [('a', 1, 1, 'FLOWRATE=0.5')], 'pitch': 1.05 * max(float(f0), float(f1))}
+    big = (float(f0), float(f1))
+    return {'asms': {'a0': dict(n=2, ftf=(min(big) if min(big) > 0.03 else 0.2, max(big) if min(big) > 0.03 else 0.204)),
+                     'a': dict(n=n, P=float(P), D=float(D), Dw=float(Dw), clad=float(clad), ftf=big)},
+            'assign': [('a0', 1, 1, 'FLOWRATE=0.5'), ('a', 2, 1, 'FLOWRATE=0.5')], 'pitch': 1.05 * max(max(big), 0.03)}
 
 
 def body_pin(env):
